@@ -37,6 +37,8 @@ package config
 
 // items of a comma list: each part trimmed, empty parts dropped, upper-cased when asked
 //@ macro func listItem(part string, up bool) string = up ? strings.ToUpper(strings.TrimSpace(part)) : strings.TrimSpace(part)
+// the list has at least one non-blank item
+//@ macro func listAny(input string) bool = input != "" && (exists k int :: 0 <= k && k < len(strings.Split(input, ",")) && strings.TrimSpace(strings.Split(input, ",")[k]) != "")
 //@ macro func listHas(input string, up bool, x string) bool = input != "" && (exists k int :: 0 <= k && k < len(strings.Split(input, ",")) && strings.TrimSpace(strings.Split(input, ",")[k]) != "" && x == listItem(strings.Split(input, ",")[k], up))
 //@ func parseStringList
 //@   props C18 C08 C10
